@@ -142,6 +142,50 @@ pub fn row_item(it: &QueryResultItem) -> String {
 }
 fn row(items: &QueryResultItems) -> String { items.iter().map(row_item).collect::<Vec<_>>().join("+") }
 
+fn data_constraint<'a>(toks: &'a [&'a str], op: &'a DataOperator<'a>) -> Option<Constraint<'a>> {
+    Some(match (toks[0], toks[1]) {
+        ("*", "*") => Constraint::Value(op.clone(), SelectionQualifier::Normal),
+        (set, key) if set != "*" && key != "*" => if matches!(op, DataOperator::Any) { Constraint::DataKey { set, key, qualifier: SelectionQualifier::Normal } } else { Constraint::KeyValue { set, key, operator: op.clone(), qualifier: SelectionQualifier::Normal } },
+        _ => return None,
+    })
+}
+
+fn handles_of(store: &AnnotationStore, query: Query) -> String {
+    let _ = stam::verif_hooks::verif_take_query_error();
+    match guarded(std::panic::AssertUnwindSafe(|| -> Result<Vec<usize>, String> {
+        let it = store.query(query).map_err(|e| format!("{}", e))?;
+        let v: Vec<usize> = it.filter_map(|r| match r.iter().next() { Some(QueryResultItem::Annotation(a)) => Some(a.handle().as_usize()), _ => None }).collect();
+        match stam::verif_hooks::verif_take_query_error() { Some(e) => Err(e), None => Ok(v) }
+    })) { Ok(Ok(v)) => list_s(&v), Ok(Err(e)) => format!("refused:{}", e.chars().take(50).collect::<String>()), Err(p) => format!("panic:{}", p.chars().take(50).collect::<String>()) }
+}
+
+/// `st qann set key op…` on the implementation: the constraint as first constraint (p=) and behind a first constraint
+/// that admits every annotation (f=)
+pub fn qann_impl(store: &AnnotationStore, c: &str) -> String {
+    let toks: Vec<&str> = c.split_whitespace().collect();
+    if toks.len() < 3 { return "bad-op".into(); }
+    let op = match crate::fam::data::parse_op(&toks[2..], &mut 0) { Some(o) => o, None => return "bad-op".into() };
+    let all: Vec<AnnotationHandle> = store.annotations().map(|a| a.handle()).collect();
+    let cons = match data_constraint(&toks, &op) { Some(c) => c, None => return "bad-op".into() };
+    let p = handles_of(store, Query::new(QueryType::Select, Some(Type::Annotation), Some("x")).with_constraint(cons.clone()));
+    let f = handles_of(store, Query::new(QueryType::Select, Some(Type::Annotation), Some("x"))
+        .with_constraint(Constraint::Annotations(Handles::new(std::borrow::Cow::Owned(all), true, store), SelectionQualifier::Normal, AnnotationDepth::Zero))
+        .with_constraint(cons));
+    format!("p={} f={}", p, f)
+}
+
+/// `st qand c1 ;; c2 ;; …` on the implementation: the conjunction as written (the first constraint is index-driven)
+pub fn qand_impl(store: &AnnotationStore, cs: &[String]) -> String {
+    let toks: Vec<Vec<&str>> = cs.iter().map(|c| c.split_whitespace().collect()).collect();
+    let ops: Vec<Option<DataOperator>> = toks.iter().map(|t| if t.len() < 3 { None } else { crate::fam::data::parse_op(&t[2..], &mut 0) }).collect();
+    if ops.iter().any(|o| o.is_none()) { return "bad-op".into(); }
+    let mut query = Query::new(QueryType::Select, Some(Type::Annotation), Some("x"));
+    for (t, o) in toks.iter().zip(ops.iter()) {
+        match data_constraint(t, o.as_ref().unwrap()) { Some(c) => query = query.with_constraint(c), None => return "bad-op".into() }
+    }
+    handles_of(store, query)
+}
+
 /// run a query given as text; Err = refused (syntax or unsupported combination)
 pub fn run_text(store: &AnnotationStore, q: &str) -> Result<Vec<String>, String> {
     match guarded(std::panic::AssertUnwindSafe(|| -> Result<Vec<String>, String> {
@@ -194,11 +238,52 @@ pub fn as_set(v: &[String]) -> BTreeSet<String> { v.iter().cloned().collect() }
 
 pub fn check_store(rep: &mut Report, script: &[String], rng: &mut Rng) {
     let mut ex = Exec::new();
-    for l in script { ex.exec(l); }
+    let script_outs: Vec<String> = script.iter().map(|l| ex.exec(l)).collect();
     let store = &ex.store;
     let v = vocab(store);
     let ctx = |q: &str| -> Vec<String> { let mut c = script.to_vec(); c.push(format!("query: {}", q)); c };
     let types = ["ANNOTATION", "DATA", "KEY", "TEXT", "RESOURCE", "DATASET"];
+    // ---- data constraints of SELECT ANNOTATION through the store model: index-driven (first) and filter (later) evaluation,
+    //      and conjunctions with the first constraint index-driven (`st qann` / `st qand` lines, QuerySem.lean)
+    {
+        let mut lines: Vec<String> = script.to_vec();
+        let mut outs: Vec<String> = script_outs.clone();
+        let opmenu = ["any", "eqi:0", "eqi:1", "ge:1", "not eqi:0", "lt:2"];
+        let mut cons: Vec<String> = vec![];
+        for _ in 0..6 {
+            let c = match rng.below(4) {
+                0 => match v.data.get(rng.below(v.data.len().max(1))) { Some((s_, k_, val)) => format!("{} {} eq:{}", s_, k_, hex(val)), None => continue },
+                1 => match v.keys.get(rng.below(v.keys.len().max(1))) { Some((s_, k_)) => format!("{} {} {}", s_, k_, opmenu[rng.below(opmenu.len())]), None => continue },
+                2 => match v.data.get(rng.below(v.data.len().max(1))) { Some((_, _, val)) => format!("* * eq:{}", hex(val)), None => continue },
+                _ => format!("* * {}", opmenu[1 + rng.below(opmenu.len() - 1)]),
+            };
+            if !cons.contains(&c) { cons.push(c); }
+        }
+        for c in &cons {
+            let line = format!("st qann {}", c);
+            let got = qann_impl(store, c);
+            rep.count("query:qann");
+            if !got.starts_with("p=- ") { rep.count("query:qann:nonempty"); }
+            lines.push(line);
+            outs.push(got);
+        }
+        if cons.len() >= 2 {
+            for _ in 0..3 {
+                let k = 2 + rng.below(2.min(cons.len() - 1));
+                let mut pick: Vec<String> = vec![];
+                for _ in 0..k { let c = cons[rng.below(cons.len())].clone(); if !pick.contains(&c) { pick.push(c); } }
+                if pick.len() < 2 { continue; }
+                let line = format!("st qand {}", pick.join(" ;; "));
+                let got = qand_impl(store, &pick);
+                rep.count("query:qand");
+                if got != "-" { rep.count("query:qand:nonempty"); }
+                rep.case(Some(&format!("{}|{}", script.join("|"), line)));
+                lines.push(line);
+                outs.push(got);
+            }
+        }
+        if lines.len() > script.len() { rep.model_case(lines, outs, "data-constraints"); }
+    }
     for _ in 0..12 {
         let rtype = *rng.pick(&types);
         // up to three constraints that the library accepts on their own as primary constraint
